@@ -104,6 +104,13 @@ impl ClientConnection {
     /// Reads a request from the stream.
     /// Blocks until the header has been read.
     fn read(&mut self) -> Result<Request, ReadError> {
+        // a peer that was gone before we could ask for its address (connection reset right
+        // after it was established) cannot be served: end the connection instead of panicking
+        let remote_addr = match self.remote_addr {
+            Ok(addr) => addr,
+            Err(ref err) => return Err(ReadError::ReadIoError(IoError::from(err.kind()))),
+        };
+
         let (method, path, version, headers) = {
             // reading the request line
             let (method, path, version) = {
@@ -152,7 +159,7 @@ impl ClientConnection {
             path,
             version.clone(),
             headers,
-            *self.remote_addr.as_ref().unwrap(),
+            remote_addr,
             data_source,
             writer,
         )
